@@ -248,10 +248,10 @@ def run(chk):
         sub.guard("R9", lambda: c15.r9(sub))
         chk.rule("R6", "validation exempts quick-return instructions from the per-member name checks (guard sets of those diagnostics contain `quick_return.is_none()`)", floor=4)
         for r_, why in sub.inconclusive:
-            if "validate_fields" in why or "validate_variant_fields" in why or "table" in why:
+            if "emit[Member" in why:
                 chk.inconc("R6", why)
         for i in sub.instances:
-            if i.rule == "R9" and (i.key.startswith("validate_fields[Member") or i.key.startswith("validate_variant_fields[Member")):
+            if i.rule == "R9" and i.key.startswith("emit[Member"):
                 if i.ok:
                     chk.ok("R6", "validation:" + i.key, i.file, i.line)
                 else:
